@@ -146,7 +146,6 @@ func cmdVerify(args []string) {
 	}
 }
 
-
 // cmdSweep: zero-annotation safety sweep — verify functions WITHOUT contracts
 // against the empty contract (no panics for arbitrary well-typed inputs) and
 // list what fails. Exploration aid for writing thin safety contracts.
